@@ -65,6 +65,7 @@ def run(ctx: common.Run):
         ctx.report_unproved('lean-build', f'{failing}', {'theorem_or_correspondence': failing})
         return
     check_decompose_rules(ctx, cirq)
+    check_channel_wrappers(ctx, cirq)
     n = 250 if ctx.tier == 'quick' else 3000
     rng = ctx.substream('ops')
     reqs, meta = [], []
@@ -300,6 +301,68 @@ def run(ctx: common.Run):
             ctx.report_witness(f'{kind}', f'{kind} on axes {positions} of a tensor of shape {shape} differs from the action of the reported matrix',
                                {'lines': [{'op': desc, 'shape': shape, 'axes': positions}], 'impl_out': [repr(np.round(got[:32], 6).tolist())],
                                 'spec_out': [repr(np.round(want[:32], 6).tolist())], 'theorem_or_correspondence': 'applyOp via runArr_refines'})
+
+
+def check_channel_wrappers(ctx, cirq):
+    """wrappers around channels and qudit gates: the has_kraus / has_mixture / has_unitary answers agree with what kraus / mixture / unitary
+    return, the shape every description reports is the wrapper's qid_shape, and the Kraus description is the composition of the parts"""
+    rng = ctx.substream('channel-wrappers')
+    q = cirq.LineQubit.range(3)
+    t = cirq.LineQid.range(3, dimension=3)
+
+    def sup(ks):
+        return sum(np.kron(np.asarray(k), np.asarray(k).conj()) for k in ks)
+
+    p, g = round(rng.uniform(0.05, 0.45), 3), round(rng.uniform(0.1, 0.9), 3)
+    subs = [('bit_flip', cirq.bit_flip(p), 2), ('amplitude_damp', cirq.amplitude_damp(g), 2), ('depolarize', cirq.depolarize(p), 2), ('reset', cirq.ResetChannel(), 2),
+            ('X.with_probability', cirq.X.with_probability(p), 2), ('unitary', cirq.X**g, 2), ('reset3', cirq.ResetChannel(dimension=3), 3),
+            ('clock3', cirq.ZPowGate(dimension=3, exponent=g, global_shift=0.25), 3), ('shift3.with_probability', cirq.XPowGate(dimension=3).with_probability(p), 3)]
+    for sname, sub, d in subs:
+        qs = q if d == 2 else t
+        op = sub.on(qs[0])
+        k1 = [np.asarray(k) for k in cirq.kraus(sub)]
+        other = cirq.X(qs[1]) if d == 2 else cirq.XPowGate(dimension=3).on(qs[1])
+        builders = [
+            ('parallel-gate', lambda: cirq.ParallelGate(sub, 2), [np.kron(a, b) for a in k1 for b in k1], (d, d)),
+            ('parallel-op', lambda: cirq.ParallelGate(sub, 2).on(qs[0], qs[1]), [np.kron(a, b) for a in k1 for b in k1], (d, d)),
+            ('parallel-gate-3', lambda: cirq.ParallelGate(sub, 3), [np.kron(np.kron(a, b), c) for a in k1 for b in k1 for c in k1], (d, d, d)),
+            ('tagged', lambda: op.with_tags('tag'), k1, (d,)),
+            ('circuit-op', lambda: cirq.CircuitOperation(cirq.FrozenCircuit(op, other)), [np.kron(a, cirq.unitary(other)) for a in k1], (d, d)),
+            ('circuit-op-repeated', lambda: cirq.CircuitOperation(cirq.FrozenCircuit(op), repetitions=2), [b @ a for a in k1 for b in k1], (d,)),
+            ('moment', lambda: cirq.Moment(op, other), [np.kron(a, cirq.unitary(other)) for a in k1], (d, d)),
+        ]
+        cases = []
+        for wname, build, want_k, shape in builders:
+            try:
+                cases.append((wname, build(), want_k, shape))
+            except Exception as e:  # noqa: BLE001
+                ctx.report_witness(f'wrapper-shape:{wname.split("-")[0]}', 'the wrapper cannot be applied to qids of the shape of what it wraps',
+                                   {'lines': [{'wrapper': wname, 'sub': repr(sub)}], 'impl_out': [f'{type(e).__name__}: {e}'[:300]], 'spec_out': [list(shape)], 'theorem_or_correspondence': 'qid_shape of wrappers'})
+        for wname, v, want_k, shape in cases:
+            ctx.count('check', 'channel-wrapper:' + wname)
+            ctx.case(['channel-wrapper', wname, sname, p, g], True)
+            rep = {'lines': [{'wrapper': wname, 'value': repr(v)[:400]}], 'theorem_or_correspondence': 'protocol coherence (has_* vs value)'}
+            if wname != 'moment' and tuple(cirq.qid_shape(v)) != shape:
+                ctx.report_witness(f'wrapper-shape:{wname.split("-")[0]}', 'the wrapper does not report the shape of what it wraps', dict(rep, impl_out=[list(cirq.qid_shape(v))], spec_out=[list(shape)]))
+                continue
+            for pred, has, get in (('has_kraus', cirq.has_kraus, cirq.kraus), ('has_mixture', cirq.has_mixture, cirq.mixture), ('has_unitary', cirq.has_unitary, cirq.unitary)):
+                try:
+                    val = get(v, None)
+                    answer = has(v)
+                except Exception as e:  # noqa: BLE001
+                    ctx.report_witness(f'predicate:{pred}:{wname}:raises', f'{pred} / its value raises on a wrapped channel', dict(rep, impl_out=[f'{type(e).__name__}: {e}'[:300]], spec_out=['an answer']))
+                    continue
+                if answer != (val is not None):
+                    ctx.report_witness(f'predicate:{pred}:{wname.replace("-repeated", "").replace("-3", "")}', f'cirq.{pred}(v) is {answer} but cirq.{pred[4:]}(v) ' + ('returns a value' if val is not None else 'has none'),
+                                       dict(rep, impl_out=[answer, val is not None], spec_out=['equal']))
+                    continue
+                if val is None:
+                    continue
+                got_k = [np.asarray(val)] if pred == 'has_unitary' else ([np.sqrt(pp) * np.asarray(u) for pp, u in val] if pred == 'has_mixture' else [np.asarray(k) for k in val])
+                dim = int(np.prod(shape))
+                if any(k.shape != (dim, dim) for k in got_k) or not np.allclose(sup(got_k), sup(want_k), atol=1e-7):
+                    ctx.report_witness(f'wrapper-value:{pred[4:]}:{wname.split("-")[0]}', f'the {pred[4:]} description of the wrapper is not the composition of its parts',
+                                       dict(rep, impl_out=[repr([np.round(k, 5).tolist() for k in got_k])[:1200]], spec_out=[repr([np.round(k, 5).tolist() for k in want_k])[:1200]]))
 
 
 def check_decompose_rules(ctx, cirq):
